@@ -8,6 +8,7 @@ if [ -n "$(git status --porcelain --untracked-files=no)" ]; then echo "repo not 
 git apply $REV "$P" || { echo "patch does not apply"; exit 2; }
 trap 'git -C /repo checkout -- . ' EXIT
 cd /verif
+export SYMX_EVIDENCE_DIR=/verif/out/try_evidence
 for c in "$@"; do
   ./check $c ${TIER:-quick} > out/try_$c.log 2>&1; rc=$?
   echo "== $c exit=$rc: $(grep -c '^VIOLATION' out/try_$c.log) violations, $(grep -c '^HARNESS-ERROR' out/try_$c.log) harness errors, $(grep -c '^INCONCLUSIVE' out/try_$c.log) inconclusive"
